@@ -142,7 +142,12 @@ class Universe:
                     [[], [""], ["zz"], ["ab"], "x", 5, [5], [r.choice(events)["id"].upper()] if events else [],
                      [(r.choice(events)["id"] if events else "00" * 32) + "0"],
                      [(r.choice(events)["id"] if events else "00" * 32)[:10]],
-                     ["'" * 64], ["%" * 64], ["x'" + "0" * 61]]
+                     ["'" * 64], ["%" * 64], ["x'" + "0" * 61],
+                     # 64 hex digits followed by something: a validator that only looks at the prefix lets it through
+                     [(r.choice(events)["id"] if events else "00" * 32) + "' or 1=1 or '"],
+                     [(r.choice(events)["id"] if events else "00" * 32) + "' union select id,created_at,kind,pubkey,tags,sig,content from events --"],
+                     [("0" * 64) + "%"], [("0" * 63) + "_' or ''='"], [(r.choice(events)["id"] if events else "00" * 32) + "\x00"],
+                     [(r.choice(events)["id"] if events else "00" * 32) + "\n"], [" " + (r.choice(events)["id"] if events else "00" * 32)]]
                 )
             elif roll < 0.65:
                 f["kinds"] = r.choice([[], [-1], [2 ** 31], [2 ** 32], [2 ** 63], [2 ** 64], ["1"], [1.0], [1.5], [True], "1", 1, [None],
